@@ -11,6 +11,7 @@ import (
 	"os"
 	"sort"
 	"strings"
+	"time"
 
 	"github.com/internetarchive/Zeno/internal/pkg/archiver"
 	"github.com/internetarchive/Zeno/internal/pkg/config"
@@ -118,6 +119,32 @@ func init() {
 				b, _ := json.Marshal(out)
 				return string(b)
 			case "doc":
+				// in its own goroutine, with a watchdog: a parser that spins must not take the harness with it
+				done := make(chan string, 1)
+				go func() {
+					defer func() {
+						if r := recover(); r != nil {
+							done <- fmt.Sprintf("crash %v", r)
+						}
+					}()
+					done <- docOp(in)
+				}()
+				select {
+				case out := <-done:
+					return out
+				case <-time.After(time.Duration(num(in, "timeoutMs", 20000)) * time.Millisecond):
+					return "hang"
+				}
+			}
+			return "harness-error bad-op"
+		}
+	})
+}
+
+func docOp(in map[string]any) string {
+	{
+		{
+			{
 				// {"url","ctype","body"|"bodyhex","headers"}: what the extractors make of it
 				it, msg := fetched(in)
 				if it == nil {
@@ -149,9 +176,8 @@ func init() {
 				out, _ := json.Marshal(res)
 				return string(out)
 			}
-			return "harness-error bad-op"
 		}
-	})
+	}
 }
 
 var _ = strings.TrimSpace
